@@ -1,9 +1,10 @@
 (** Protocol operations for C13 (see Lib/Val.v).
     [bitmap.NextOne] / [bitmap.PrevOne]: one call.
     [bitmap.NextOne/ends]  [bm; i]: the results for every end in [i, 64*len]  (exhaustive sweeps).
-    [bitmap.PrevOne/starts] [bm; e]: the results for every i in [0, min(e, 64*len-1)]. *)
+    [bitmap.PrevOne/starts] [bm; e]: the results for every i in [0, min(e, 64*len-1)].
+    The operations of the widening (sparse / held bitmaps, iteration, duality) are in Run/NextWide.v. *)
 From Coq Require Import ZArith List Bool String.
-From Low Require Import Lib.Bits Lib.BitSeq Lib.Val Model.BitmapNext Spec.NextSpec.
+From Low Require Import Lib.Bits Lib.BitSeq Lib.Val Model.BitmapNext Spec.NextSpec Run.NextWide.
 Import ListNotations.
 Open Scope string_scope.
 Open Scope Z_scope.
@@ -14,7 +15,7 @@ Definition zrange (lo hi : Z) : list Z :=   (* lo, lo+1, ..., hi *)
 Definition vopts (l : list (option Z)) : val :=
   match opt_all l with Some r => vzs r | None => VPanic end.
 
-Definition ops_C13 : list opdef := [
+Definition ops_C13_core : list opdef := [
   {| op_name := "bitmap.NextOne";
      op_run := fun a => match a with
        | [bm; i; e] => match as_zs bm, as_z i, as_z e with
@@ -70,3 +71,6 @@ Definition ops_C13 : list opdef := [
            | _, _ => VBad end
        | _ => VBad end) |}
 ].
+
+(** the core operations and those of the widening (Run/NextWide.v) *)
+Definition ops_C13 : list opdef := (ops_C13_core ++ ops_C13_wide)%list.
